@@ -448,6 +448,33 @@ PROPS["C01"] = dict(
     assumptions=ASSUME_COMMON,
 )
 
+PROPS["C18"] = dict(
+    units=[dict(name="c18", src="props/c18.cpp", deps=["lib/runners.hpp", "lib/pwc.hpp"], nosan=True, libs=["-ldl"])],
+    level="fault_enumeration",
+    rule="case = one workload: integrator (generated configuration, float or double, mt19937 or minstd_rand, with / without "
+         "distributions, VEGAS up to 6 dims x 128 bins so that checkpoints range from ~200 bytes to ~200 kB) x 1..4 "
+         "iterations x optionally a checkpoint file left by an earlier run that is resumed; a counting pass records every "
+         "tracked file-system call of the writing callback, then EVERY position is a crash point (child SIGKILLed on entry), "
+         "write/writev positions additionally after 0, 1, half, all-1 bytes (thorough: every prefix for checkpoints <= 4 kB, "
+         "64 sampled prefixes otherwise), plus a non-fatal short write at every write; inner_evaluations = crash / fault "
+         "experiments; non-trivial: a crash while a complete checkpoint was on disk; distinct = distinct workload description",
+    quick=dict(shards=8, cases=20),
+    thorough=dict(shards=16, cases=300),
+    floors={"crash-with-complete-file-at-stake": 0.35, "file-from-earlier-run": 0.08, "larger-than-stream-buffer": 0.08},
+    exhaustive_claim=False,
+    level_text="fault enumeration with an in-binary interposer on fopen/fopen64/open*/write/writev/fclose/close/rename/unlink/"
+               "remove/ftruncate: exhaustive over the positions of the tracked call sequence of each generated workload "
+               "(process kill on entry, and after byte prefixes of each write), plus short writes; after every kill the file "
+               "is absent only if nothing complete was there before, otherwise byte-identical to the previous or the new "
+               "checkpoint, and resuming from it reproduces the undisturbed final text",
+    level_note="fault model: process kill at system-call granularity and byte prefixes of a write; power loss (no fsync) is "
+               "out of scope; the interposer sees the calls libstdc++ 12 makes (fopen64, write, writev, fclose, rename); a "
+               "tree using another I/O path shows no tracked call in the counting pass and fails the check as broken",
+    technique="rapidcheck-generated workloads + exhaustive crash-point enumeration via syscall interposition, fork and SIGKILL",
+    engine="crash-interposer",
+    assumptions=ASSUME_COMMON + ["built without sanitizers: their interceptors would shadow the interposed symbols"],
+)
+
 NOT_APPLICABLE = {}
 
 ENGINES = [
@@ -466,5 +493,8 @@ NOTES = ("All checks are ./vcheck <ID> --tier quick|thorough (python3 stdlib dri
          "rapidcheck shards seeded from VERIF_SEED, in the thorough tier also libFuzzer, confirms every failure by "
          "3 replays, writes evidence/<ID>.json. KNOWN_FINDINGS.txt lists known:/fixed: findings.")
 
-for _e in ENGINES:
+ENGINES.append(dict(name="crash-interposer", path="props/c18.cpp", kind_free_text="file-system entry points defined in the "
+                    "harness binary (they shadow libc's for libstdc++'s filebuf), fork + SIGKILL at every tracked call",
+                    serves_properties=["C18"]))
+for _e in ENGINES[:3]:
     _e["serves_properties"] = sorted(PROPS.keys())
